@@ -7,6 +7,8 @@ package reader
 // nothing is enqueued and the process does not panic.
 
 import (
+	"context"
+
 	"github.com/milvus-io/milvus-proto/go-api/v2/msgpb"
 	"github.com/milvus-io/milvus/pkg/mq/msgstream"
 
@@ -111,5 +113,40 @@ func VerifC06_ReaderFailureBusyEventQueue() {
 	}
 	vAssert(found, "C06.error-event-is-not-lost-when-the-event-queue-is-full")
 	vAssert(len(c01Emitted()) == 0, "C06.failing-message-enqueues-nothing")
+	vReach("end")
+}
+
+// VerifC06_ReaderAfterCancel: the replicate context of the target is already cancelled (its
+// last task was paused or deleted) while a pack is still in flight in the handler. Whatever the
+// message needs - a partition look-up, a partition barrier that is not registered yet, an
+// unknown collection - the handler must not crash the process (the retries it relies on return
+// at once, without having run, when the context is done).
+func VerifC06_ReaderAfterCancel() {
+	w := c01NewWorld(false)
+	ctx, cancel := context.WithCancel(context.Background())
+	w.env.h.replicateCtx = ctx
+	cancel()
+	ts := vU64("msg.ts")
+	vAssume(vAnd(ts >= 1, ts < c03Lim))
+	pos := rPos(w.srcVCh, "m0", ts)
+	var m msgstream.TsMsg
+	switch vChoice("scenario", 5) {
+	case 0: // insert for a partition whose downstream id has to be looked up
+		delete(w.info.PartitionInfo, "p")
+		m = rInsert(w.srcColl, w.srcPart, "p", w.srcVCh, ts, pos, 1)
+	case 1: // delete likewise
+		delete(w.info.PartitionInfo, "p")
+		m = rDelete(w.srcColl, w.srcPart, "p", w.srcVCh, ts, pos, 1)
+	case 2: // drop of a partition whose barrier is not registered (yet)
+		m = rDropPartition(w.srcColl, w.srcPart+1, "q", ts, pos)
+	case 3: // insert for a collection the handler does not know
+		m = rInsert(555, 11, "p", w.srcVCh, ts, pos, 1)
+	case 4: // an ordinary insert
+		m = rInsert(w.srcColl, w.srcPart, "p", w.srcVCh, ts, pos, 1)
+	}
+	pack := &msgstream.MsgPack{BeginTs: ts, EndTs: ts, Msgs: []msgstream.TsMsg{m},
+		StartPositions: []*msgpb.MsgPosition{rPos(w.srcVCh, "start", ts)}, EndPositions: []*msgpb.MsgPosition{rPos(w.srcVCh, "end", ts)}}
+	w.env.h.innerHandleReplicateMsg(false, api.GetReplicateMsg(rSrcP, "coll", w.srcColl, pack, "task-7"))
+	vAssert(len(w.env.eventChan) <= 1, "C06.at-most-one-error-event")
 	vReach("end")
 }
